@@ -28,6 +28,76 @@ ASSUMPTIONS = ["std::sync::Mutex gives mutual exclusion; HashMap/Vec have their 
 MAPS = ("peers", "aliases", "alias_index")
 
 
+_COPIES = ("to_vec", "to_owned", "to_string", "clone", "from", "into", "into_bytes", "into_boxed_slice", "into_vec", "as_bytes", "as_str", "as_slice", "deref", "as_ref", "borrow")
+_FILLERS = ("push_str", "extend_from_slice", "extend")
+_BUILD_EMPTY = ("with_capacity", "new")
+_TOUCHES = ("push", "push_str", "extend_from_slice", "extend", "insert", "insert_str", "truncate", "clear", "pop", "remove", "resize", "append", "drain", "retain",
+            "set_len", "swap", "reverse", "sort", "fill", "copy_from_slice", "index_mut", "deref_mut", "as_mut", "as_mut_slice", "as_mut_vec", "as_bytes_mut", "split_off", "make_ascii_uppercase",
+            "make_ascii_lowercase", "replace_range", "dedup", "rotate_left", "rotate_right")
+
+
+def _content_source(b, sym, e, depth=0):
+    """the expression whose bytes a freshly built Vec/String holds, or None: an empty buffer filled by exactly one
+    push_str/extend_from_slice on every path and touched by nothing else, a copy (to_vec, clone, ..) or clone_with_prefix_room"""
+    if depth > 6 or not isinstance(e, tuple):
+        return None
+    if e[0] == "call":
+        nm = e[1].rsplit("::", 1)[-1]
+        if nm == "clone_with_prefix_room" and e[2]:
+            return _content_source(b, sym, e[2][0], depth + 1)
+        if nm in _COPIES and len(e[2]) == 1:
+            return _content_source(b, sym, e[2][0], depth + 1)
+        if nm in _BUILD_EMPTY and len(e) > 3:
+            me = render(e)
+            touching = [(i, t) for i, t in b.calls() if t["args"] and render(sym.op(t["args"][0])) == me and t["callee"]["name"] in _TOUCHES]
+            if len(touching) != 1 or touching[0][1]["callee"]["name"] not in _FILLERS or len(touching[0][1]["args"]) != 2:
+                return None
+            i, t = touching[0]
+            if in_cycle(b, i) or must_cross(b, [(0, 0)], return_points(b), [term_pt(b, i)], after_start=False) is not None:
+                return None
+            return _content_source(b, sym, sym.op(t["args"][1]), depth + 1)
+        return None
+    return e
+
+
+def _body_content_rule(facts, R, wpath, c, cv, kind):
+    """what every peer receives is the caller's body: the closure's NotifyBody holds a copy of a captured value, and the wrapper
+    captured its own `body`/`text` parameter (JSON/BEVE: the serialisation of it), the Raw format being the caller's format"""
+    cs = Sym(c)
+    src = _content_source(c, cs, dict(cv[3]).get("0"))
+    cap = src[2] if (src is not None and src[0] == "field" and src[1][0] == "arg" and src[1][1] == 1) else None
+    wb = facts.body(wpath)
+    ws = Sym(wb)
+    captured = {}
+    for i, t in wb.calls():
+        for a_ in t["args"]:
+            v = ws.op(a_)
+            if v[0] == "agg" and str(v[1]).startswith("closure:") and str(v[1]).endswith(c.path.split("::{inl#")[0]) or (v[0] == "agg" and str(v[1]) == "closure:" + c.path):
+                captured = dict(v[3])
+    w = captured.get(cap) if cap is not None else None
+    ok = False
+    det = "closure content comes from %s; wrapper captured %s" % (render_n(src)[:80] if src is not None else None, render_n(w)[:100] if w is not None else None)
+    if w is not None:
+        if kind in ("Json", "Beve"):
+            want = "serde_json::to_vec" if kind == "Json" else "beve::to_vec"
+            x = w
+            if x[0] == "field" and x[2] == "0" and x[1][0] == "variant" and x[1][2] == "Continue" and x[1][1][0] == "call" and x[1][1][2]:
+                x = x[1][1][2][0]
+            elif x[0] == "field" and x[2] == "0" and x[1][0] == "variant" and x[1][2] == "Ok":
+                x = x[1][1]
+            ok = x[0] == "call" and (x[1] == want or x[1].endswith("::" + want)) and len(x[2]) == 1 and x[2][0][0] == "arg" and x[2][0][2] == "body"
+        elif kind == "Utf8":
+            ok = w[0] == "arg" and w[2] == "text"
+        else:
+            ok = w[0] == "arg" and w[2] == "body"
+            f1 = dict(cv[3]).get("1")
+            fcap = f1[2] if (f1 is not None and f1[0] == "field" and f1[1][0] == "arg" and f1[1][1] == 1) else None
+            fw = captured.get(fcap)
+            ok = ok and fw is not None and fw[0] == "arg" and fw[2] == "body_format"
+    R.check(ok, "broadcast-loop", c.path, "body content is the caller's %s" % ("text" if kind == "Utf8" else "body"),
+            "the %s broadcast does not deliver the caller's body unchanged: %s" % (kind, det), c.span, det)
+
+
 def run(facts, R):
     for m in MAPS:
         facts.require_field(INNER, m)
@@ -251,6 +321,14 @@ def run(facts, R):
             ok = a[0] == "arg1" and a[1] == "arg2"   # path.as_ref() is transparent
             n_w += 1
         R.check(ok, "broadcast-loop", wb.path, "wrapper passes path through", "wrapper calls broadcast_each(%s)" % (a[:2] if calls else None), wb.span)
+    # clone_with_prefix_room(src, room) holds exactly src's bytes (the spare room is capacity, not content)
+    if facts.has_body("peer::clone_with_prefix_room"):
+        kb = facts.body("peer::clone_with_prefix_room")
+        ks = Sym(kb)
+        ksrc = _content_source(kb, ks, ks.local(0))
+        R.check(ksrc is not None and ksrc[0] == "arg" and ksrc[1] == 1, "broadcast-loop", kb.path, "copy holds exactly the source bytes",
+                "clone_with_prefix_room returns %s, whose content is %s" % (render_n(ks.local(0))[:100], render_n(ksrc)[:80] if ksrc is not None else None), kb.span,
+                "empty buffer + one extend_from_slice(src)")
     # body closures build the body of the advertised kind from the given bytes
     for nm, kind, src in (("broadcast_notify_json", "Json", "encoded"), ("broadcast_notify_beve", "Beve", "encoded"), ("broadcast_notify_utf8", "Utf8", "text"), ("broadcast_notify_raw", "Raw", "body")):
         for c in facts.children(PR + "::" + nm):
@@ -261,3 +339,4 @@ def run(facts, R):
                 if kind == "Raw":
                     ok = ok and "body_format" in txt
                 R.check(ok, "broadcast-loop", c.path, "body kind %s from the given bytes" % kind, "closure builds %s" % txt[:120], c.span, txt[:80])
+                _body_content_rule(facts, R, PR + "::" + nm, c, cv, kind)
